@@ -140,6 +140,7 @@ let run_sched_case k hdr body =
       done in
     run_main_ops (List.length setup);
     s := fork_state !s workers;
+    run_main_ops (List.length teardown);
     let b = Buffer.create 1024 in
     let enabled w = not (thread_done !s (nat_of_int (w+1))) in
     let rec pick sched cur =
@@ -171,7 +172,6 @@ let run_sched_case k hdr body =
         Buffer.add_string b (Printf.sprintf "%d:%s " w tag);
         loop r w (guard - 1) in
     if nw > 0 then loop sched (-1) 20000;
-    run_main_ops (List.length teardown);
     Buffer.add_string b "| ";
     Buffer.add_string b (show_dump nslab !s 0);
     Printf.printf "%d %s\n" k (Buffer.contents b);
